@@ -60,7 +60,7 @@ pub fn replay(cases: &str, verdicts: &str) {
             let oc = if off == 0.0 { "offset0" } else if off.abs() < 1e7 { "offset<=2^20" } else { "offset1e8" };
             let class = format!("{} {}", shape, oc);
             let vx = Vector::new(x.clone());
-            let mx = Matrix { data: vx.clone(), nrows: if n % 2 == 0 { 2 } else { 1 }, ncols: if n % 2 == 0 { n / 2 } else { n } };
+            let mx = mk(vx.clone(), if n % 2 == 0 { 2 } else { 1 }, if n % 2 == 0 { n / 2 } else { n });
             let mut num_check = |v: &mut Verdicts, name: &str, g: Option<f64>, e: f64| {
                 v.check(g.map(|g| tol_ok(g, e, spread, off)).unwrap_or(false), name, &class, &c, json!({"got": g, "expected": e, "offset": off}));
             };
